@@ -409,7 +409,7 @@ namespace hgv::rt
 
     // ---------------------------------------------------------------- live output -> canonical state text
     //   invalid position: _    TS: v   SIGNAL: T   TSS: {e,..}   TSD: {k=<s>,..}   TSL: [<s>,<s>]   TSB: (f=<s>,..)
-    //   TSW: <e;e;e> (oldest first)
+    //   TSW: <e;e;e> (oldest first; _ before the first push)
     inline std::string print_state(const Sch &sch, const TSOutputView &o)
     {
         switch (sch.kind)
@@ -423,9 +423,10 @@ namespace hgv::rt
             }
             case Kind::TSW:
             {
+                if (!o.valid()) return "_";
                 const auto v = o.value();
                 if (!v.has_value()) return "_";
-                std::string out = o.valid() ? "<" : "~<";
+                std::string out = "<";
                 const auto  iv  = v.as_indexed_view();
                 for (std::size_t i = 0; i < iv.size(); ++i)
                 {
